@@ -122,14 +122,23 @@ def oracle_axis_tight(R: Run, Ns, Nd, s, t, src, dst):
              f"dst {want_dst[:1]}..{want_dst[-1:]}", sig="axis-tight")
 
 
-def centres(shape):
+def centres(shape, rows=None, cols=None):
     ny, nx = shape
-    yy, xx = np.meshgrid(np.arange(ny) + 0.5, np.arange(nx) + 0.5, indexing="ij")
+    rows = np.arange(ny) if rows is None else rows
+    cols = np.arange(nx) if cols is None else cols
+    yy, xx = np.meshgrid(rows + 0.5, cols + 0.5, indexing="ij")
     return xx, yy
 
 
-def check_cover(R: Run, key: str, case, src_shape, dst_shape, px, py, r, eps, sig, src_limit=None):
-    """px,py: source pixel coordinates of every destination pixel centre (arrays of dst shape, may hold nan)."""
+def sub_index(n, step):
+    """every `step`-th index plus the two outermost on each side (all four borders stay in the sample)"""
+    if step <= 1 or n <= 8:
+        return np.arange(n)
+    return np.unique(np.concatenate([np.arange(0, n, step), [0, 1, n - 2, n - 1]]))
+
+
+def check_cover(R: Run, key: str, case, src_shape, dst_shape, px, py, r, eps, sig, src_limit=None, rows=None, cols=None):
+    """px,py: source pixel coordinates of the destination pixel centres (rows x cols; all pixels by default)."""
     sny, snx = src_shape
     dny, dnx = dst_shape
     (ys, xs), (yd, xd) = r.roi_src, r.roi_dst
@@ -141,22 +150,23 @@ def check_cover(R: Run, key: str, case, src_shape, dst_shape, px, py, r, eps, si
     fin = np.isfinite(px) & np.isfinite(py)
     with np.errstate(invalid="ignore"):
         inside = fin & (px >= eps) & (px < snx - eps) & (py >= eps) & (py < sny - eps)
-        in_dst = np.zeros(px.shape, dtype=bool)
-        in_dst[yd.start:yd.stop, xd.start:xd.stop] = True
+        rows = np.arange(dny) if rows is None else rows
+        cols = np.arange(dnx) if cols is None else cols
+        in_dst = (((rows >= yd.start) & (rows < yd.stop))[:, None]) & (((cols >= xd.start) & (cols < xd.stop))[None, :])
         miss_dst = inside & ~in_dst
         miss_src = inside & ((px < xs.start - eps) | (px >= xs.stop + eps) | (py < ys.start - eps) | (py >= ys.stop + eps))
     what = ""
     if miss_dst.any():
         iy, ix = np.argwhere(miss_dst)[0]
-        what = (f"dst pixel (row {iy}, col {ix}) maps to src ({px[iy, ix]:.6f}, {py[iy, ix]:.6f}) inside the source "
-                f"{src_shape} but is outside roi_dst={r.roi_dst}")
+        what = (f"{int(miss_dst.sum())} checked dst pixels dropped, e.g. (row {rows[iy]}, col {cols[ix]}) maps to src "
+                f"({px[iy, ix]:.6f}, {py[iy, ix]:.6f}) inside the source {src_shape} but is outside roi_dst={r.roi_dst}")
     R.oracle(not miss_dst.any(), key + "-dst-pixel-dropped", case, what, sig=sig + "|dst-covers",
              trivial=not inside.any())
     what = ""
     if miss_src.any():
         iy, ix = np.argwhere(miss_src)[0]
-        what = (f"dst pixel (row {iy}, col {ix}) maps to src ({px[iy, ix]:.6f}, {py[iy, ix]:.6f}) inside the source "
-                f"{src_shape} but outside roi_src={r.roi_src}")
+        what = (f"{int(miss_src.sum())} checked dst pixels, e.g. (row {rows[iy]}, col {cols[ix]}), map to src "
+                f"({px[iy, ix]:.6f}, {py[iy, ix]:.6f}) inside the source {src_shape} but outside roi_src={r.roi_src}")
     R.oracle(not miss_src.any(), key + "-src-pixel-dropped", case, what, sig=sig + "|src-covers",
              trivial=not inside.any())
     return bool(inside.any())
@@ -187,7 +197,9 @@ def oracle_linear(R: Run, case, src_shape, dst_shape, A6, r, pad, align, eps, ta
     """A6: exact dst→src pixel transform (Fractions).  Checks the C03 statement on the real result `r`."""
     sny, snx = src_shape
     dny, dnx = dst_shape
-    xx, yy = centres(dst_shape)
+    step = 1 if dny * dnx <= 250_000 else max(2, int(math.sqrt(dny * dnx / 40_000)))
+    rows, cols = sub_index(dny, step), sub_index(dnx, step)
+    xx, yy = centres(dst_shape, rows, cols)
     px, py = apply_np(A6, xx, yy)
     rs = int(r.read_shrink)
     lim = None
@@ -201,9 +213,11 @@ def oracle_linear(R: Run, case, src_shape, dst_shape, A6, r, pad, align, eps, ta
         de = abs(abs(e) / rs - 1)
         fr = lambda v: abs(v / rs - round(v / rs))  # noqa: E731
         drift = max(da * dnx + fr(c), de * dny + fr(f))
-        if drift >= Fraction(1, 2) and (da != 0 or de != 0):
+        # known class: NO rotation/shear, scale residue within the default stol, drift of half a pixel or more
+        if (drift >= Fraction(1, 2) and (da != 0 or de != 0) and A6[1] == 0 and A6[3] == 0
+                and da < Fraction(case.get("stol", 1e-3)) and de < Fraction(case.get("stol", 1e-3))):
             key = "paste-scale-drift"
-    check_cover(R, key, case, src_shape, dst_shape, px, py, r, eps, f"plan|{tag}", src_limit=lim)
+    check_cover(R, key, case, src_shape, dst_shape, px, py, r, eps, f"plan|{tag}", src_limit=lim, rows=rows, cols=cols)
     # separated by more than the margin → both empty
     margin = 0 if r.paste_ok else (1 if pad is None else pad)
     if r.paste_ok and rs > 1:
@@ -669,6 +683,75 @@ def run(R: Run):
         st = (abs(A6[0]), abs(A6[4])) if kind != "rot" else (k, k)
         oracle_linear(R, case, sshape, dshape, A6, r, pad, al, 1e-6, "float-" + kind, st_scale=tuple(float(v) for v in st))
 
+    # --- tiny rotations / shears on large rasters: the rotation tolerance of the paste test matters (oracle only)
+    for _ in range(R.pick(60, 600)):
+        N1, N2 = rng.randint(2000, 3200), rng.randint(2000, 3200)
+        sshape = (N1, rng.randint(2000, 3200))
+        dshape = (N2, rng.randint(2000, 3200)) if rng.random() < 0.7 else (rng.randint(300, 900), rng.randint(2000, 3200))
+        res_s = rng.choice([10, 30, 0.00025, 1.0])
+        S = Affine.translation(rng.uniform(-1e6, 1e6) if res_s >= 1 else rng.uniform(-170, 100),
+                               rng.uniform(-1e6, 1e6) if res_s >= 1 else rng.uniform(-60, 80)) * Affine.scale(res_s, -res_s)
+        th = rng.choice([1, -1]) * 10 ** rng.uniform(-12, -2)
+        kind = rng.choice(["rot", "rot", "shear-x", "shear-y"])
+        L = {"rot": Affine(math.cos(th), -math.sin(th), 0, math.sin(th), math.cos(th), 0), "shear-x": Affine(1, th, 0, 0, 1, 0),
+             "shear-y": Affine(1, 0, 0, th, 1, 0)}[kind]
+        if rng.random() < 0.3:
+            L = L * Affine.scale(rng.choice([1, -1]), rng.choice([1, -1]))
+        tx, ty = rng.randint(-400, 400), rng.randint(-400, 400)
+        if rng.random() < 0.4:
+            tx, ty = tx + rng.uniform(-0.04, 0.04), ty + rng.uniform(-0.04, 0.04)
+        D = S * Affine.translation(tx, ty) * L
+        pad = rng.choice([None, None, None, 0, 1])
+        src, dst = gb(sshape, S), gb(dshape, D)
+        case = {"fn": "compute_reproject_roi", "src_shape": sshape, "dst_shape": dshape, "src_affine": list(S)[:6],
+                "dst_affine": list(D)[:6], "padding": pad, "align": None, "crs": CRS0}
+        try:
+            r = O.compute_reproject_roi(src, dst, padding=pad)
+        except Exception as e:  # pylint: disable=broad-except
+            R.oracle(False, "plan-raises", case, f"compute_reproject_roi raised {type(e).__name__}: {e}", sig="plan|raises")
+            continue
+        A6 = fmul(finv(faff(S)), faff(D))
+        mag = int(round(-math.log10(abs(th))))
+        oracle_linear(R, case, sshape, dshape, A6, r, pad, None, 1e-4, f"float-tiny-{kind}-1e-{mag}" + ("|paste" if r.paste_ok else ""),
+                      st_scale=None)
+
+    # --- caller supplied tolerances, scales straddling k ± stol (oracle only)
+    for _ in range(R.pick(300, 3000)):
+        stol = rng.choice([1e-2, 1e-3, 1e-4, 1e-6])
+        ttol = rng.choice([0.05, 1e-2, 1e-3, 0.2])
+        k = rng.choice([1, 2, 2, 3, 4, 5])
+        dlt = stol * rng.choice([0.3, 0.9, 0.99, 1.01, 1.1, 2.5, 6.0]) * rng.choice([1, -1])
+        dlt2 = dlt if rng.random() < 0.6 else stol * rng.choice([0.3, 1.5]) * rng.choice([1, -1])
+        sshape = (rng.randint(8, 90), rng.randint(8, 90))
+        dshape = (rng.randint(4, 50), rng.randint(4, 50))
+        sg = (rng.choice([1, 1, -1]), rng.choice([1, 1, -1]))
+        rt = ttol * rng.choice([0, 0.5, 0.9, 1.1, 3]) * rng.choice([1, -1])
+        tx = k * (rng.randint(-dshape[1], sshape[1] // k) + rt) + (k * dshape[1] if sg[0] < 0 else 0)
+        ty = k * (rng.randint(-dshape[0], sshape[0] // k) + rt / 2) + (k * dshape[0] if sg[1] < 0 else 0)
+        S = gen_src_affine(rng) if rng.random() < 0.5 else Affine.identity()
+        D = S * Affine((k + dlt) * sg[0], 0, tx, 0, (k + dlt2) * sg[1], ty)
+        src, dst = gb(sshape, S), gb(dshape, D)
+        case = {"fn": "compute_reproject_roi", "src_shape": sshape, "dst_shape": dshape, "src_affine": list(S)[:6],
+                "dst_affine": list(D)[:6], "stol": stol, "ttol": ttol, "crs": CRS0}
+        try:
+            r = O.compute_reproject_roi(src, dst, stol=stol, ttol=ttol)
+        except Exception as e:  # pylint: disable=broad-except
+            R.oracle(False, "plan-raises", case, f"compute_reproject_roi raised {type(e).__name__}: {e}", sig="plan|raises")
+            continue
+        A6 = fmul(finv(faff(S)), faff(D))
+        oracle_linear(R, case, sshape, dshape, A6, r, None, None, 1e-6, f"float-tol-{stol:g}" + ("|paste" if r.paste_ok else ""),
+                      st_scale=(float(abs(A6[0])), float(abs(A6[4]))))
+        if r.paste_ok:  # two-sided: source region = read_shrink x destination region, and the scale is within the stated stol
+            rs = int(r.read_shrink)
+            (ys, xs), (yd, xd) = r.roi_src, r.roi_dst
+            R.oracle((ys.stop - ys.start, xs.stop - xs.start) == (rs * (yd.stop - yd.start), rs * (xd.stop - xd.start)),
+                     "paste-src-shape-not-shrink-times-dst", case,
+                     f"paste_ok read_shrink={rs} roi_src={r.roi_src} roi_dst={r.roi_dst}", sig="plan|paste-shape")
+            R.oracle(abs(abs(A6[0]) / rs - 1) < Fraction(stol) * (1 + Fraction(1, 10**6)) and
+                     abs(abs(A6[4]) / rs - 1) < Fraction(stol) * (1 + Fraction(1, 10**6)),
+                     "paste-ok-scale-outside-stol", case,
+                     f"paste_ok with read_shrink={rs} for scales {float(A6[0])}, {float(A6[4])} and stol={stol}", sig="plan|paste-stol")
+
     # ================================================================ cross-CRS (oracle only; pyproj is the reference)
     cross_crs(R, O, gb)
 
@@ -691,8 +774,64 @@ CRS_AREAS = {
     "EPSG:27700": ((-6, 50.2, 1.5, 58), 100),
 }
 
+# CRSs without an EPSG code (custom proj strings)
+SINU_0 = "+proj=sinu +lon_0=0 +x_0=0 +y_0=0 +R=6371007.181 +units=m +no_defs"
+SINU_15 = "+proj=sinu +lon_0=15 +x_0=0 +y_0=0 +R=6371007.181 +units=m +no_defs"
+LAEA_A = "+proj=laea +lat_0=52 +lon_0=10 +x_0=4321000 +y_0=3210000 +ellps=GRS80 +units=m +no_defs"
+LAEA_B = "+proj=laea +lat_0=45 +lon_0=20 +x_0=0 +y_0=0 +ellps=GRS80 +units=m +no_defs"
+NO_EPSG = [SINU_0, SINU_15, LAEA_A, LAEA_B]
+
+# large extents: conic / polar / transverse far from the central meridian / sinusoidal / azimuthal
+LARGE_AREAS = {
+    "EPSG:4326": (-170, -78, 170, 78), "EPSG:3857": (-170, -75, 170, 75), "EPSG:6933": (-170, -75, 170, 75),
+    "EPSG:3577": (112, -44, 154, -10), "EPSG:3031": (-170, -88, 170, -62), "EPSG:32633": (3, 25, 27, 72),
+    "EPSG:32755": (135, -72, 159, -20), SINU_0: (-60, -55, 60, 55), SINU_15: (-45, -55, 75, 55),
+    LAEA_A: (-12, 33, 32, 70), LAEA_B: (-5, 28, 45, 65),
+}
+RECTILINEAR = {"EPSG:4326", "EPSG:3857", "EPSG:6933"}
+
+
+def crs_tag(c: str) -> str:
+    return c[5:] if c.startswith("EPSG:") else {SINU_0: "sinu0", SINU_15: "sinu15", LAEA_A: "laeaA", LAEA_B: "laeaB"}.get(c, "custom")
+
+
+HISTORY_OPS = ["tr-authority", "tr-authority-back", "tr-xy", "epsg-a", "epsg-b", "eq", "str", "hash"]
+
+
+def apply_history(ops, ca, cb):
+    for op in ops:
+        try:
+            if op == "tr-authority":
+                ca.transformer_to_crs(cb, always_xy=False)(1.0, 2.0)
+            elif op == "tr-authority-back":
+                cb.transformer_to_crs(ca, always_xy=False)(1.0, 2.0)
+            elif op == "tr-xy":
+                ca.transformer_to_crs(cb, always_xy=True)(1.0, 2.0)
+            elif op == "epsg-a":
+                _ = ca.epsg
+            elif op == "epsg-b":
+                _ = cb.epsg
+            elif op == "eq":
+                _ = ca == cb
+            elif op == "str":
+                _ = str(ca), str(cb)
+            else:
+                _ = hash(ca), hash(cb)
+        except Exception:  # pylint: disable=broad-except
+            pass
+
+
+def prior_history(rng, ca, cb):
+    """Calls an application may have made earlier in the same process on the two CRSs; all of them are
+    observationally irrelevant to planning (they only touch process-global caches / lazily filled fields)."""
+    ops = [rng.choice(HISTORY_OPS) for _ in range(rng.choice([0, 0, 1, 2, 4]))]
+    apply_history(ops, ca, cb)
+    return ops
+
 
 def cross_crs(R: Run, O, gb):
+    from odc.geo.crs import CRS
+    from pyproj import CRS as PCRS
     from pyproj import Transformer
 
     rng = R.rng
@@ -701,68 +840,34 @@ def cross_crs(R: Run, O, gb):
 
     def tf(a, b):
         if (a, b) not in tcache:
-            tcache[(a, b)] = Transformer.from_crs(a, b, always_xy=True)
+            tcache[(a, b)] = Transformer.from_crs(PCRS.from_user_input(a), PCRS.from_user_input(b), always_xy=True)
         return tcache[(a, b)]
 
-    def common_area(a, b):
-        (x0, y0, x1, y1), (u0, v0, u1, v1) = CRS_AREAS[a][0], CRS_AREAS[b][0]
+    def common_area(a, b, table):
+        (x0, y0, x1, y1), (u0, v0, u1, v1) = table[a], table[b]
         return max(x0, u0), max(y0, v0), min(x1, u1), min(y1, v1)
 
     def make_box(crs, lon, lat, shape, res):
         x, y = tf("EPSG:4326", crs).transform(lon, lat)
-        return gb(shape, Affine.translation(x - res * shape[1] / 2, y + res * shape[0] / 2) * Affine.scale(res, -res), crs)
+        return shape, Affine.translation(x - res * shape[1] / 2, y + res * shape[0] / 2) * Affine.scale(res, -res)
 
-    n = R.pick(220, 2200)
-    done = 0
-    tries = 0
-    while done < n and tries < 20 * n:
-        tries += 1
-        a, b = rng.choice(names), rng.choice(names)
-        if a == b:
-            continue
-        lon0, lat0, lon1, lat1 = common_area(a, b)
-        if lon1 - lon0 < 0.5 or lat1 - lat0 < 0.5:
-            continue
-        # extent of the experiment: a few km to a few hundred km, kept inside the common area
-        ext_deg = min(rng.choice([0.05, 0.2, 0.5, 1.0, 2.0]), (lon1 - lon0) / 2.5, (lat1 - lat0) / 2.5)
-        wide = rng.random() < 0.25 and (lon1 - lon0) > 5 and (lat1 - lat0) > 5
-        if wide:
-            # wide destination, fine source pixels: the boundary images are visibly curved, so the number of
-            # boundary samples per side matters (5 per side keeps the envelope error well below the 1 px padding)
-            ext_deg = min(rng.choice([5.0, 8.0, 10.0, 12.0]), (lon1 - lon0) / 2.5, (lat1 - lat0) / 2.5)
-        lon = rng.uniform(lon0 + ext_deg, lon1 - ext_deg)
-        lat = rng.uniform(lat0 + ext_deg, lat1 - ext_deg)
-        dshape = (rng.randint(8, 70), rng.randint(8, 70))
-        if wide:
-            dshape = (rng.randint(60, 110), rng.randint(60, 110))
-        m_per_deg = 111000.0
-        unit_b = 1.0 if b == "EPSG:4326" else m_per_deg
-        unit_a = 1.0 if a == "EPSG:4326" else m_per_deg
-        res_d = ext_deg * unit_b / max(dshape) * (math.cos(math.radians(lat)) if b in ("EPSG:6933",) else 1)
-        rel = rng.choice([1, 1, 0.5, 2, 3.3, 0.31])
-        res_s = res_d / unit_b * unit_a / rel
-        sshape = (rng.randint(20, 160), rng.randint(20, 160))
-        off = rng.choice([0, 0, 0.3, 0.6, 1.0, 1.6]) * ext_deg
-        if wide:
-            rel = rng.choice([1, 2, 4])
-            res_s = res_d / unit_b * unit_a / rel
-            k = int(max(dshape) * rel * rng.choice([1.5, 2.0]))
-            sshape = (k, k)
-            off = rng.choice([0, 0, 0.1]) * ext_deg
-            pad = None
-        ang = rng.uniform(0, 2 * math.pi)
-        slon = min(max(lon + off * math.cos(ang), lon0), lon1)
-        slat = min(max(lat + off * math.sin(ang), lat0), lat1)
-        try:
-            src = make_box(a, slon, slat, sshape, res_s)
-            dst = make_box(b, lon, lat, dshape, res_d)
-        except Exception:  # pylint: disable=broad-except
-            continue
-        pad = rng.choice([None, None, 1, 2, 0]) if not wide else rng.choice([None, 1])
-        al = rng.choice([None, None, 4, 16]) if not wide else None
+    def make_box_ext(crs, lon, lat, ext_deg, shape):
+        """footprint roughly ext_deg wide and high around (lon, lat)"""
+        t = tf("EPSG:4326", crs)
+        xs, ys = t.transform([lon - ext_deg / 2, lon + ext_deg / 2, lon, lon], [lat, lat, lat - ext_deg / 2, lat + ext_deg / 2])
+        w, h = abs(xs[1] - xs[0]), abs(ys[3] - ys[2])
+        cx, cy = t.transform(lon, lat)
+        if not all(map(math.isfinite, (w, h, cx, cy))) or w <= 0 or h <= 0:
+            raise ValueError("degenerate")
+        return shape, Affine.translation(cx - w / 2, cy + h / 2) * Affine.scale(w / shape[1], -h / shape[0])
+
+    def one_case(a, b, sbox, dbox, pad, al, tag, step=1):
+        (sshape, SA), (dshape, DA) = sbox, dbox
+        ca, cb = CRS(a), CRS(b)  # fresh wrappers: lazily filled fields (.epsg) start unset
+        hist = prior_history(rng, ca, cb)
+        src, dst = gb(sshape, SA, ca), gb(dshape, DA, cb)
         case = {"fn": "compute_reproject_roi", "src_crs": a, "dst_crs": b, "src_shape": sshape, "dst_shape": dshape,
-                "src_affine": list(src.transform)[:6], "dst_affine": list(dst.transform)[:6], "padding": pad, "align": al}
-        done += 1
+                "src_affine": list(SA)[:6], "dst_affine": list(DA)[:6], "padding": pad, "align": al, "history": hist}
         seen = []
         orig_rfp = O.roi_from_points
 
@@ -774,51 +879,139 @@ def cross_crs(R: Run, O, gb):
         try:
             r = O.compute_reproject_roi(src, dst, padding=pad, align=al)
         except Exception as e:  # pylint: disable=broad-except
-            O.roi_from_points = orig_rfp
             R.oracle(False, "xcrs-raises", case, f"compute_reproject_roi raised {type(e).__name__}: {e}", sig="xcrs|raises")
-            continue
-        O.roi_from_points = orig_rfp
-        if done % 10 == 0:  # branch structure of the cross-CRS path: number of sampled boundary points
-            R.corr(f"c03 nlsamples {dshape[0]} {dshape[1]}", lambda: str(seen[0]) if seen else "none", sig="xcrs|samples")
-        # independent mapping of every destination pixel centre: dst pixel → dst world → src world → src pixel
-        xx, yy = centres(dshape)
-        wx, wy = apply_np(faff(dst.transform), xx, yy)
+            return
+        finally:
+            O.roi_from_points = orig_rfp
+        if len(seen) == 2 and rng.random() < 0.25:  # branch structure: boundary samples of BOTH roi_boundary calls
+            R.corr(f"c03 nlsamples {dshape[0]} {dshape[1]}", lambda: f"{seen[0]} {seen[1]}", sig="xcrs|samples")
+        # independent mapping of the destination pixel centres: dst pixel → dst world → src world → src pixel
+        rows, cols = sub_index(dshape[0], step), sub_index(dshape[1], step)
+        xx, yy = centres(dshape, rows, cols)
+        wx, wy = apply_np(faff(DA), xx, yy)
         sx, sy = tf(b, a).transform(wx, wy)
         sx, sy = np.asarray(sx, dtype="float64"), np.asarray(sy, dtype="float64")
         sx[~np.isfinite(sx)] = np.nan
         sy[~np.isfinite(sy)] = np.nan
-        px, py = apply_np(finv(faff(src.transform)), sx, sy)
-        anyin = check_cover(R, "xcrs", case, sshape, dshape, px, py, r, 1e-6, f"xcrs|{a[5:]}>{b[5:]}" + ("|wide" if wide else ""))
-        R.oracle(r.paste_ok is False, "xcrs-paste-ok", case, "paste_ok across CRSs", sig="xcrs|nopaste", trivial=True)
+        px, py = apply_np(finv(faff(SA)), sx, sy)
+        sig = f"xcrs|{crs_tag(a)}>{crs_tag(b)}|{tag}" + ("|hist" if hist else "")
+        anyin = check_cover(R, "xcrs", case, sshape, dshape, px, py, r, 1e-6, sig, rows=rows, cols=cols)
+        R.oracle(r.paste_ok is False and r.transform.linear is None, "xcrs-treated-as-same-crs", case,
+                 f"different CRSs planned as a same-CRS pair (paste_ok={r.paste_ok}, linear={r.transform.linear is not None})",
+                 sig="xcrs|nopaste", trivial=True)
         # scale: destination-to-source pixel size ratio at the centre of the overlap (finite differences via pyproj)
         (yd, xd) = r.roi_dst
         if yd.stop > yd.start and xd.stop > xd.start:
             cxp, cyp = (xd.start + xd.stop) / 2, (yd.start + yd.stop) / 2
             pts = np.array([[cxp, cyp], [cxp + 1, cyp], [cxp - 1, cyp], [cxp, cyp + 1], [cxp, cyp - 1]]).T
-            wx, wy = apply_np(faff(dst.transform), pts[0], pts[1])
+            wx, wy = apply_np(faff(DA), pts[0], pts[1])
             qx, qy = tf(b, a).transform(wx, wy)
-            qx, qy = apply_np(finv(faff(src.transform)), np.asarray(qx), np.asarray(qy))
-            # columns of the local Jacobian (dst→src)
-            jx = np.array([(qx[1] - qx[2]) / 2, (qy[1] - qy[2]) / 2])
-            jy = np.array([(qx[3] - qx[4]) / 2, (qy[3] - qy[4]) / 2])
-            n1 = float(np.hypot(*jx))
-            det = abs(jx[0] * jy[1] - jx[1] * jy[0])
-            want = (n1, det / n1)
-            ok = (abs(r.scale2.x - want[0]) <= 0.02 * want[0] and abs(r.scale2.y - want[1]) <= 0.02 * want[1]
-                  and r.scale == min(r.scale2.xy))
-            R.oracle(ok, "xcrs-scale", case, f"scale2={r.scale2} local pixel-size ratios {want}", sig="xcrs|scale")
+            qx, qy = apply_np(finv(faff(SA)), np.asarray(qx), np.asarray(qy))
+            if np.isfinite(qx).all() and np.isfinite(qy).all():
+                jx = np.array([(qx[1] - qx[2]) / 2, (qy[1] - qy[2]) / 2])
+                jy = np.array([(qx[3] - qx[4]) / 2, (qy[3] - qy[4]) / 2])
+                n1 = float(np.hypot(*jx))
+                det = abs(jx[0] * jy[1] - jx[1] * jy[0])
+                want = (n1, det / n1)
+                ok = (abs(r.scale2.x - want[0]) <= 0.02 * want[0] and abs(r.scale2.y - want[1]) <= 0.02 * want[1]
+                      and r.scale == min(r.scale2.xy))
+                R.oracle(ok, "xcrs-scale", case, f"scale2={r.scale2} local pixel-size ratios {want}", sig="xcrs|scale")
             check_scale(R, "xcrs", case, r, None, 0, "xcrs")
         elif anyin is False:
             R.oracle(r.read_shrink == 1 and r.scale == 0, "xcrs-empty-scale", case, f"{r.read_shrink} {r.scale}",
                      sig="xcrs|empty", trivial=True)
 
+    # ---------------- small / wide rasters inside the areas of use
+    n = R.pick(200, 2000)
+    done = 0
+    tries = 0
+    while done < n and tries < 20 * n:
+        tries += 1
+        a, b = rng.choice(names), rng.choice(names)
+        if a == b:
+            continue
+        lon0, lat0, lon1, lat1 = common_area(a, b, {k: v[0] for k, v in CRS_AREAS.items()})
+        if lon1 - lon0 < 0.5 or lat1 - lat0 < 0.5:
+            continue
+        ext_deg = min(rng.choice([0.05, 0.2, 0.5, 1.0, 2.0]), (lon1 - lon0) / 2.5, (lat1 - lat0) / 2.5)
+        wide = rng.random() < 0.25 and (lon1 - lon0) > 5 and (lat1 - lat0) > 5
+        if wide:
+            ext_deg = min(rng.choice([5.0, 8.0, 10.0, 12.0]), (lon1 - lon0) / 2.5, (lat1 - lat0) / 2.5)
+        lon = rng.uniform(lon0 + ext_deg, lon1 - ext_deg)
+        lat = rng.uniform(lat0 + ext_deg, lat1 - ext_deg)
+        dshape = (rng.randint(8, 70), rng.randint(8, 70))
+        if wide:
+            dshape = (rng.randint(60, 110), rng.randint(60, 110))
+        m_per_deg = 111000.0
+        unit_b = 1.0 if b == "EPSG:4326" else m_per_deg
+        unit_a = 1.0 if a == "EPSG:4326" else m_per_deg
+        res_d = ext_deg * unit_b / max(dshape) * (math.cos(math.radians(lat)) if b in ("EPSG:6933",) else 1)
+        rel = rng.choice([1, 1, 0.5, 2, 3.3, 0.31])
+        sshape = (rng.randint(20, 160), rng.randint(20, 160))
+        off = rng.choice([0, 0, 0.3, 0.6, 1.0, 1.6]) * ext_deg
+        if wide:
+            rel = rng.choice([1, 2, 4])
+            k = int(max(dshape) * rel * rng.choice([1.5, 2.0]))
+            sshape = (k, k)
+            off = rng.choice([0, 0, 0.1]) * ext_deg
+        res_s = res_d / unit_b * unit_a / rel
+        ang = rng.uniform(0, 2 * math.pi)
+        slon = min(max(lon + off * math.cos(ang), lon0), lon1)
+        slat = min(max(lat + off * math.sin(ang), lat0), lat1)
+        try:
+            sbox = make_box(a, slon, slat, sshape, res_s)
+            dbox = make_box(b, lon, lat, dshape, res_d)
+        except Exception:  # pylint: disable=broad-except
+            continue
+        pad = rng.choice([None, None, 1, 2, 0]) if not wide else rng.choice([None, 1])
+        al = rng.choice([None, None, 4, 16]) if not wide else None
+        done += 1
+        one_case(a, b, sbox, dbox, pad, al, "wide" if wide else "small")
+
+    # ---------------- large extents, curved projections, partial coverage, CRSs without EPSG codes
+    lnames = sorted(LARGE_AREAS)
+    n = R.pick(110, 1100)
+    done = 0
+    tries = 0
+    while done < n and tries < 30 * n:
+        tries += 1
+        a, b = rng.choice(lnames), rng.choice(lnames)
+        if a == b or (a in RECTILINEAR and b in RECTILINEAR and rng.random() < 0.8):
+            continue
+        if rng.random() < 0.25:  # two different CRSs that both lack an EPSG code
+            a, b = rng.sample(NO_EPSG, 2)
+        lon0, lat0, lon1, lat1 = common_area(a, b, LARGE_AREAS)
+        if lon1 - lon0 < 8 or lat1 - lat0 < 8:
+            continue
+        es = min(rng.choice([10, 16, 24, 30]), (lon1 - lon0) / 1.6, (lat1 - lat0) / 1.6)
+        ed = min(es * rng.choice([0.6, 1.3, 1.8, 1.8, 2.5]), (lon1 - lon0) / 1.2, (lat1 - lat0) / 1.2)
+        m = max(es, ed) / 2
+        lon, lat = rng.uniform(lon0 + m, lon1 - m), rng.uniform(lat0 + m, lat1 - m)
+        off = rng.choice([0, 0.2, 0.5]) * es
+        ang = rng.uniform(0, 2 * math.pi)
+        slon = min(max(lon + off * math.cos(ang), lon0 + es / 2), lon1 - es / 2)
+        slat = min(max(lat + off * math.sin(ang), lat0 + es / 2), lat1 - es / 2)
+        sshape = (rng.randint(100, 600), rng.randint(100, 600))
+        dshape = (rng.randint(100, 400), rng.randint(100, 400))
+        try:
+            sbox = make_box_ext(a, slon, slat, es, sshape)
+            dbox = make_box_ext(b, lon, lat, ed, dshape)
+        except Exception:  # pylint: disable=broad-except
+            continue
+        done += 1
+        one_case(a, b, sbox, dbox, rng.choice([None, None, 1, 0]), None, "large")
+
 
 def rebuild(case):
+    from odc.geo.crs import CRS
+
     O, RO, GeoBox, wh_ = _import()
     sa, da = Affine(*case["src_affine"]), Affine(*case["dst_affine"])
     ss, ds = case["src_shape"], case["dst_shape"]
-    src = GeoBox(wh_(ss[1], ss[0]), sa, case.get("src_crs", case.get("crs", CRS0)))
-    dst = GeoBox(wh_(ds[1], ds[0]), da, case.get("dst_crs", case.get("crs", CRS0)))
+    ca, cb = CRS(case.get("src_crs", case.get("crs", CRS0))), CRS(case.get("dst_crs", case.get("crs", CRS0)))
+    apply_history(case.get("history", []), ca, cb)
+    src = GeoBox(wh_(ss[1], ss[0]), sa, ca)
+    dst = GeoBox(wh_(ds[1], ds[0]), da, cb)
     kw = {k: case[k] for k in ("ttol", "stol", "padding", "align") if k in case}
     return O, src, dst, kw
 
@@ -883,7 +1076,10 @@ def replay(R: Run, rec) -> int:
 
             xx, yy = centres(tuple(case["dst_shape"]))
             wx, wy = apply_np(faff(dst.transform), xx, yy)
-            sx, sy = Transformer.from_crs(case["dst_crs"], case["src_crs"], always_xy=True).transform(wx, wy)
+            from pyproj import CRS as PCRS
+
+            sx, sy = Transformer.from_crs(PCRS.from_user_input(case["dst_crs"]), PCRS.from_user_input(case["src_crs"]),
+                                          always_xy=True).transform(wx, wy)
             px, py = apply_np(finv(faff(src.transform)), np.asarray(sx), np.asarray(sy))
             check_cover(R, "xcrs", case, tuple(case["src_shape"]), tuple(case["dst_shape"]), px, py, r, 1e-6, "replay")
         else:
